@@ -605,7 +605,8 @@ where
                 || last_regular_refresh_index
                     + adlt_verif_seam::knobs::lc_regular_refresh_interval()
                     < last_msg_index;
-            if force_refresh || last_regular_refresh_index + 100_000 < last_msg_index {
+            if force_refresh || last_regular_refresh_index.saturating_add(100_000) < last_msg_index
+            {
                 // update all marked lifecycles:
                 let mut nr_lcs_to_update = lcs_to_refresh.len();
                 for vs in ecu_map.values() {
